@@ -29,7 +29,11 @@ const (
 // Run explores the three scenarios (C08).
 func Run(r *ev.Run, bound int, deadline time.Duration) {
 	RunBasic(r, bound, deadline)
-	runChain(r, bound, deadline)
+	cb := bound
+	if cb > 2 {
+		cb = 2 // three threads and two hops: bound 2 is ~10^4 executions, bound 3 does not finish in a thorough run
+	}
+	runChain(r, cb, deadline)
 }
 
 // RunBasic explores the two one-hop scenarios (C04, which has a chain scenario of its own).
